@@ -106,6 +106,14 @@ def join(a: AV, b: AV) -> AV:
         return b
     if b.kind == "bottom":
         return a
+    if "alist" in (a.kind, b.kind) and a.kind in ("alist", "list") and b.kind in ("alist", "list"):
+        ea = a.data if a.kind == "alist" else join_all(list(a.data))
+        eb = b.data if b.kind == "alist" else join_all(list(b.data))
+        return AV(a.deps | b.deps, "alist", join(ea, eb), sh.TOP, a.via | b.via)
+    sa = _as_strset(a)
+    sb = _as_strset(b)
+    if sa is not None and sb is not None and (a.kind == "strset" or b.kind == "strset" or a.data != b.data):
+        return AV(a.deps | b.deps, "strset", sa | sb)
     if a.kind == b.kind and a.kind not in ("val",):
         if a.kind == "const":
             if a.data == b.data and type(a.data) is type(b.data):
@@ -117,6 +125,10 @@ def join(a: AV, b: AV) -> AV:
                       join_view(a.view, b.view))
         if a.kind in ("tuple", "list") and len(a.data) == len(b.data):
             return AV(a.deps | b.deps, a.kind, [join(x, y) for x, y in zip(a.data, b.data)], sh.TOP, a.via | b.via)
+        if a.kind == "list" and all(_as_strset(x) is not None for x in list(a.data) + list(b.data)) and (a.data or b.data):
+            # lists of names of different length: one abstract element ranging over all names
+            names = frozenset().union(*[_as_strset(x) for x in list(a.data) + list(b.data)])
+            return AV(a.deps | b.deps, "alist", AV(E, "strset", names), sh.TOP, a.via | b.via)
         if a.data == b.data:
             return AV(a.deps | b.deps, a.kind, a.data, sh.add(a.shape, b.shape) if (a.shape is not sh.TOP and b.shape is not sh.TOP) else sh.TOP,
                       a.via | b.via, join_view(a.view, b.view))
@@ -135,6 +147,14 @@ def join(a: AV, b: AV) -> AV:
     return AV(a.deps | b.deps, "val", None, shp, a.via | b.via, join_view(a.view, b.view))
 
 
+def _as_strset(a: AV):
+    if a.kind == "strset":
+        return a.data
+    if a.kind == "const" and isinstance(a.data, str):
+        return frozenset([a.data])
+    return None
+
+
 def join_all(vals: List[AV]) -> AV:
     out = BOTTOM
     for v in vals:
@@ -142,9 +162,24 @@ def join_all(vals: List[AV]) -> AV:
     return out
 
 
+def guard_texts(guards) -> List[str]:
+    out = []
+    for g in guards:
+        if isinstance(g, str):
+            out.append(g)
+        else:
+            t = norm(g[0], 160)
+            out.append("not(" + t + ")" if g[1] else t)
+    return out
+
+
 class Store:
     """A write to net storage / a ppc matrix / a result table recorded during interpretation."""
-    __slots__ = ("path", "value", "index", "ctrl", "fn", "node", "stack", "op", "through_view", "guards")
+    __slots__ = ("path", "value", "index", "ctrl", "fn", "node", "stack", "op", "through_view", "_guards")
+
+    @property
+    def guards(self):
+        return guard_texts(self._guards)
 
     def __init__(self, path, value, index, ctrl, fn, node, stack, op=None, through_view=False, guards=()):
         self.path = path  # e.g. 'ppc.bus.PD', 'net.res_line.pl_mw', 'net.trafo.vk_percent', 'net.gen.@rows'
@@ -156,14 +191,14 @@ class Store:
         self.stack = stack
         self.op = op
         self.through_view = through_view
-        self.guards = guards
+        self._guards = guards
 
     def __repr__(self):
         return f"Store({self.path} <- {sorted(self.value.deps)[:8]} @ {self.fn.fq if self.fn else ''})"
 
 
 class CallEvent:
-    __slots__ = ("callee", "args", "kwargs", "fn", "node", "stack", "ctrl", "guards")
+    __slots__ = ("callee", "args", "kwargs", "fn", "node", "stack", "ctrl", "_guards")
 
     def __init__(self, callee, args, kwargs, fn, node, stack, ctrl, guards):
         self.callee = callee
@@ -173,7 +208,11 @@ class CallEvent:
         self.node = node
         self.stack = stack
         self.ctrl = ctrl
-        self.guards = guards
+        self._guards = guards
+
+    @property
+    def guards(self):
+        return guard_texts(self._guards)
 
 
 class Frame:
@@ -232,6 +271,9 @@ class Interp:
         self.record_local_stores = False
         self.bind_defaults_at_entry = False
         self.assume_schema_columns = False   # "col" in net.<table> is True for schema columns
+        self.instantiate_objects = True      # run __init__ and methods of repository classes
+        self.memo_calls = False              # coarse memoisation of callee analyses (effect sweeps only)
+        self._memo: Dict[Any, Any] = {}
         self._idxnames: Dict[str, Dict[int, str]] = {}
 
     IDX_MODULES = {"bus": "pandapower.pypower.idx_bus", "branch": "pandapower.pypower.idx_brch",
@@ -416,13 +458,13 @@ class Interp:
         env0 = dict(fr.env)
         mark = len(fr.ctrl)
         fr.ctrl.append(tv.deps)
-        fr.guards.append(norm(st.test, 120))
+        fr.guards.append((st.test, False))
         term1 = self.exec_body(st.body, fr)
         env1 = fr.env
         fr.guards.pop()
         del fr.ctrl[mark + 1:]
         fr.env = dict(env0)
-        fr.guards.append("not(" + norm(st.test, 120) + ")")
+        fr.guards.append((st.test, True))
         term2 = self.exec_body(st.orelse, fr)
         fr.guards.pop()
         env2 = fr.env
@@ -588,8 +630,10 @@ class Interp:
             self._mkstore(f"{base.data}.{attr}", v, UNKNOWN, fr, st, op)
         elif base.kind == "table":
             tag, names = base.data
+            if base.view is None:
+                tag = tag + "#tablecopy"
             for t in sorted(names):
-                self._mkstore(f"{tag}.{t}.{attr}", v, UNKNOWN, fr, st, op, through_view=bool(base.view is None and False))
+                self._mkstore(f"{tag}.{t}.{attr}", v, UNKNOWN, fr, st, op)
         elif base.kind == "obj":
             base.data[attr] = v
         elif base.kind == "val" and base.view:
@@ -608,6 +652,8 @@ class Interp:
                 self._mkstore(f"{base.data}.{pat}", v, idx, fr, st, op)
         elif k == "table":
             tag, names = base.data
+            if base.view is None:
+                tag = tag + "#tablecopy"   # a filtered / copied frame, not the net's table
             cols = col_keys(idx)
             for t in sorted(names):
                 if cols:
@@ -617,6 +663,8 @@ class Interp:
                     self._mkstore(f"{tag}.{t}.*", v, idx, fr, st, op)
         elif k == "tableloc":
             tag, names, how = base.data
+            if base.view is None:
+                tag = tag + "#tablecopy"
             cols = loc_cols(idx)
             for t in sorted(names):
                 for c in (cols or ["*"]):
@@ -782,6 +830,15 @@ class Interp:
         if k == "obj":
             if attr in base.data:
                 return base.data[attr]
+            ci = base.data.get("__class__")
+            if isinstance(ci, ClassInfo):
+                m = self.repo.resolve_method(ci, attr)
+                if isinstance(m, FunctionInfo):
+                    if any(isinstance(d, ast.Name) and d.id == "property" for d in m.node.decorator_list):
+                        return self.call_function(m, [base], {}, fr, node)
+                    if _is_static(m):
+                        return AV(E, "func", m)
+                    return AV(E, "bmeth", (base, m))
             return AV(base.deps, "val")
         if k == "class":
             r = self.repo.resolve_method(base.data, attr)
@@ -863,17 +920,20 @@ class Interp:
         if k == "net":
             if idx.is_const and isinstance(idx.data, str):
                 return self.net_member(base, idx.data)
+            if idx.kind == "strset":
+                return AV(idx.deps, "table", (base.data, frozenset(idx.data)), sh.TOP, E,
+                          frozenset(f"{base.data}.{t}" for t in idx.data))
             if node is not None:
                 pat = prefix_pattern(node.slice, fr, self)
                 if pat != "?":
                     return AV(idx.deps, "table", (base.data, frozenset([pat])), sh.TOP, E, frozenset([f"{base.data}.{pat}"]))
-            if idx.kind == "strset":
-                return AV(idx.deps, "table", (base.data, frozenset(idx.data)), sh.TOP, E,
-                          frozenset(f"{base.data}.{t}" for t in idx.data))
             return AV(idx.deps | frozenset([f"{base.data}.?"]), "table", (base.data, frozenset(["?"])), sh.TOP, E, frozenset([f"{base.data}.?"]))
         if k == "table":
             cols = col_keys(idx)
             if cols:
+                if not (idx.is_const and isinstance(idx.data, str)):
+                    # df[[c1, c2]] is a new frame (copy), df[c] a Series sharing the frame's memory
+                    return self.table_col(base.with_(view=None), cols)
                 return self.table_col(base, cols)
             # row selection (mask / slice): same table, filtered -> copy semantics in pandas
             return AV(base.deps | idx.deps, "table", base.data, sh.TOP, base.via, None)
@@ -1068,6 +1128,15 @@ class Interp:
             l = l.with_(kind="val", data=None)
         if r.kind == "colormeth":
             r = r.with_(kind="val", data=None)
+        if isinstance(op, ast.Mod) and l.is_const and isinstance(l.data, str) and r.kind == "strset":
+            try:
+                return AV(r.deps, "strset", frozenset(l.data % x for x in r.data))
+            except Exception:
+                pass
+        if isinstance(op, ast.Add) and l.is_const and isinstance(l.data, str) and r.kind == "strset":
+            return AV(r.deps, "strset", frozenset(l.data + x for x in r.data))
+        if isinstance(op, ast.Add) and r.is_const and isinstance(r.data, str) and l.kind == "strset":
+            return AV(l.deps, "strset", frozenset(x + r.data for x in l.data))
         if isinstance(op, ast.Add) and l.kind in ("list", "tuple") and r.kind in ("list", "tuple"):
             return AV(l.deps | r.deps, l.kind, list(l.data) + list(r.data))
         ls, rs = shape_of(l), shape_of(r)
@@ -1320,7 +1389,14 @@ class Interp:
         if k == "class":
             ci: ClassInfo = f.data
             self.resolved_calls += 1
-            return AV(frozenset(alld), "instance", ci)
+            obj = AV(frozenset(alld), "obj", {"__class__": ci})
+            init = self.repo.resolve_method(ci, "__init__")
+            if isinstance(init, FunctionInfo) and self.instantiate_objects:
+                self.call_function(init, [obj] + list(args), kwargs, fr, node)
+            return obj
+        if k == "bmeth":
+            obj, mfi = f.data
+            return self.call_function(mfi, [obj] + list(args), kwargs, fr, node)
         if k == "lambda":
             lnode, lenv, lfn = f.data
             sub = Frame(lfn, dict(lenv), fr.depth)
@@ -1371,7 +1447,8 @@ class Interp:
             # unbound call through the class table: self is an opaque object
             if len(pos) < len(params) or True:
                 if not (pos and pos[0].kind in ("instance", "obj")):
-                    pos = [AV(E, "obj", {})] + pos
+                    ci0 = fi.module.classes.get(fi.cls)
+                    pos = [AV(E, "obj", {"__class__": ci0} if ci0 is not None else {})] + pos
         for p, v in zip(params, pos):
             bound[p] = v
         if len(pos) > len(params) and a.vararg:
@@ -1385,10 +1462,21 @@ class Interp:
                 kwrest[kname] = v
         if a.kwarg:
             bound[a.kwarg.arg] = AV(E, "dict", kwrest)
+        mkey = None
+        if self.memo_calls:
+            mkey = (fi.fq, tuple(sorted((k, _coarse_sig(v)) for k, v in bound.items())))
+            hit = self._memo.get(mkey)
+            if hit is not None:
+                ret, sts = hit
+                self.stores.extend(sts)
+                return ret
+        n0 = len(self.stores)
         sub = self.run_function(fi, bound, fr.depth + 1)
         r = sub.ret
         if r.kind == "bottom":
-            return const(None)
+            r = const(None)
+        if mkey is not None:
+            self._memo[mkey] = (r, self.stores[n0:])
         return r
 
     def table_method(self, base: AV, meth: str, args, kwargs, fr, node) -> AV:
@@ -1419,7 +1507,10 @@ class Interp:
                     names2 = names | other.data[1]
                     whole = whole | frozenset(f"{other.data[0]}.{t}.*" for t in other.data[1])
                 return AV(frozenset(alld), "table", (tag, names2), sh.TOP, base.via | frozenset(["merge"]), None)
-            return AV(frozenset(alld), "table", base.data, sh.TOP, base.via | frozenset([meth]), None)
+            keep = None
+            if meth == "copy" and "deep" in kwargs and truth(kwargs["deep"]) is False:
+                keep = base.view   # shallow copy shares the data blocks
+            return AV(frozenset(alld), "table", base.data, sh.TOP, base.via | frozenset([meth]), keep)
         if meth in ("get",):
             if args and args[0].is_const and isinstance(args[0].data, str):
                 c = self.table_col(base, [args[0].data])
@@ -1791,6 +1882,38 @@ def truth(v: AV):
     return None
 
 
+def _coarse_sig(v: AV):
+    """Coarse abstract signature of an argument for memoisation in effect sweeps: kind and identity of
+    structural references; value contents (deps, shapes) are ignored."""
+    k = v.kind
+    if k == "const":
+        d = v.data
+        try:
+            hash(d)
+            return (k, d if not isinstance(d, float) else repr(d))
+        except TypeError:
+            return (k, repr(d)[:80])
+    if k in ("net", "ppc", "matrix", "options", "lookups", "is_elements", "lookup"):
+        return (k, str(v.data))
+    if k == "table":
+        return (k, v.data[0], tuple(sorted(v.data[1])), v.view is not None)
+    if k == "strset":
+        return (k, tuple(sorted(v.data)))
+    if k == "obj":
+        ci = v.data.get("__class__") if isinstance(v.data, dict) else None
+        inner = tuple(sorted((a, _coarse_sig(x)) for a, x in v.data.items() if isinstance(x, AV) and x.kind in ("net", "ppc", "table")))
+        return (k, getattr(ci, "fq", None), inner)
+    if k in ("tuple", "list"):
+        return (k, len(v.data)) if len(v.data) > 6 else (k, tuple(_coarse_sig(x) for x in v.data))
+    if k == "dict":
+        return (k, tuple(sorted(str(x) for x in v.data)) if isinstance(v.data, dict) and len(v.data) < 12 else None)
+    if k == "func":
+        return (k, v.data.fq)
+    if k == "val":
+        return (k, tuple(sorted(v.view)) if v.view else None)
+    return (k,)
+
+
 def as_pyconst(v: AV) -> Optional[AV]:
     """const AV for constants and for list/tuple displays of constants, else None."""
     if v.kind == "const":
@@ -1802,6 +1925,8 @@ def as_pyconst(v: AV) -> Optional[AV]:
 
 
 def deps_of(v: AV) -> FrozenSet[str]:
+    if v.kind == "alist":
+        return v.deps | deps_of(v.data)
     if v.kind in ("tuple", "list", "zip"):
         out = set(v.deps)
         for x in v.data:
@@ -1853,6 +1978,8 @@ def iter_items(it: AV) -> Optional[List[AV]]:
 
 
 def element_of(it: AV) -> AV:
+    if it.kind == "alist":
+        return it.data
     if it.kind == "zip":
         return AV(E, "tuple", [element_of(x) for x in it.data])
     if it.kind in ("list", "tuple"):
